@@ -517,7 +517,14 @@ def rule_surfaced(R):
     clause_deliver_before_await(R, "surfaced")
 
 
+def rule_shared_rx(R):
+    """every PUBLISH the broker may send is surfaced: a packet of exactly the advertised Maximum Packet Size (= receive buffer length) fits the receive window -- C14's rule"""
+    from .c14 import rule_rx as _r
+    _r(R)
+
+
 def run(R):
+    R.rule("rx", rule_shared_rx)
     R.rule("surfaced", rule_surfaced)
     R.rule("ack", rule_ack)
     R.rule("once", rule_once)
